@@ -190,6 +190,9 @@ def x12n_document(param, src_file, fd_997, fd_html,
                 errh.add_st_loop(seg, src)
                 errh.handle_errors(src.pop_errors())
             elif seg.get_seg_id() == 'SE':
+                # The reader's segment errors of the SE itself belong to the SE
+                # (the reader's running count does not include the SE)
+                errh.add_seg(node, seg, src.get_seg_count() + 1, src.get_cur_line(), src.get_ls_id())
                 errh.handle_errors(src.pop_errors())
                 errh.close_st_loop(node, seg, src)
             else:
